@@ -62,7 +62,7 @@ Next == /\ l <= Len(Recs)
            /\ IF v \in Quiet THEN tally' = [tally EXCEPT ![v] = @ + 1]
               ELSE PrintT(<<"VERDICT", ToJson([i |-> l, v |-> v])>>) /\ tally' = tally
            /\ ctx' = IF r.ev = "ref" THEN CtxOf(r) ELSE ctx
-           /\ (l < Len(Recs) \/ PrintT(<<"TALLY", ToJson(tally')>>))
+           /\ IF l < Len(Recs) THEN TRUE ELSE PrintT(<<"TALLY", ToJson(tally')>>)
         /\ l' = l + 1
 Spec == Init /\ [][Next]_<<l, ctx, tally>>
 Consumed == TLCGet("stats").diameter = Len(Recs) + 1
